@@ -52,6 +52,7 @@ import (
 	"github.com/nuts-foundation/nuts-node/vdr/didweb"
 	"github.com/nuts-foundation/nuts-node/vdr/resolver"
 	"github.com/sirupsen/logrus"
+	"gorm.io/gorm"
 )
 
 // ------------------------------------------------------------------------------------------------ input / output
@@ -62,6 +63,8 @@ type serverScript struct {
 	Body     string `json:"body"`     // doc | oversize | badjson | empty | noid
 	BodyID   string `json:"body_id"`  // id of the served document ("" = requested DID)
 	Location string `json:"location"` // redirect target for 3xx
+	// ServeAt: if set, the scripted answer exists only at these (escaped) request paths; any other path answers 404 (nothing is published there)
+	ServeAt []string `json:"serve_at,omitempty"`
 }
 
 type tcase struct {
@@ -73,6 +76,11 @@ type tcase struct {
 	Order  string        `json:"order,omitempty"` // before-strict | after-strict: when the resolver was built (default: before-strict)
 	Local  string        `json:"local,omitempty"` // none | active | deactivated
 	Meta   string        `json:"meta,omitempty"`  // nil | false | true  (ResolveMetadata.AllowDeactivated)
+	// managed: the local history. Hist[i] = rank of the wall-clock reading at the moment version i was written (equal ranks = same second,
+	// a lower rank after a higher one = the clock was stepped back in between). Versions 1.. are updates (a service is added); for a
+	// deactivated DID the last version is the deactivation. Ahead: versions written while the clock was > 1h ahead of the clock at resolution.
+	Hist  []int  `json:"hist,omitempty"`
+	Ahead string `json:"ahead,omitempty"` // none | last | all
 	// key / jwk
 	KeyType string `json:"keytype,omitempty"`
 	Defect  string `json:"defect,omitempty"`
@@ -104,6 +112,8 @@ type result struct {
 	Err      string   `json:"err"`
 	ErrClass string   `json:"err_class"` // deactivated | notfound | other | ""
 	MetaDeac bool     `json:"meta_deactivated"`
+	DocVMs   int      `json:"doc_vms"`               // verification methods in the returned document
+	DocVer   *int     `json:"doc_version,omitempty"` // managed: which version came back (number of services; -1 = the empty deactivation version)
 	Dials    []string `json:"dials"`
 	Requests []reqRec `json:"requests"`
 	Panic    string   `json:"panic,omitempty"`
@@ -176,6 +186,18 @@ func (r *recorder) handler(scheme string) http.Handler {
 		r.requests = append(r.requests, reqRec{Scheme: scheme, Host: req.Host, SNI: sni, Path: req.URL.EscapedPath(), Query: req.URL.RawQuery, N: n})
 		s, reqDID := r.script, r.reqDID
 		r.mu.Unlock()
+		if s != nil && n == 0 && len(s.ServeAt) > 0 {
+			here := false
+			for _, p := range s.ServeAt {
+				here = here || p == req.URL.EscapedPath()
+			}
+			if !here {
+				w.Header().Set("Content-Type", "text/plain")
+				w.WriteHeader(404)
+				_, _ = io.WriteString(w, "nothing is published here")
+				return
+			}
+		}
 		if s == nil || n > 0 {
 			// follow-up request (after a redirect): worst case, a well-formed document carrying the requested id
 			w.Header().Set("Content-Type", "application/did+json")
@@ -268,6 +290,7 @@ type world struct {
 	rec       *recorder
 	vdr       *vdr.Module
 	vdrs      map[string]*vdr.Module
+	dbs       map[*vdr.Module]*gorm.DB
 	ctx       context.Context
 	rnd       *mrand.Rand
 	pubURL    string
@@ -317,10 +340,12 @@ func newWorld(t *testing.T, in input) *world {
 		if err := m.Configure(core.ServerConfig{URL: in.PublicURL, DIDMethods: []string{"web"}, Strictmode: in.Strict}); err != nil {
 			t.Fatalf("vdr configure: %v", err)
 		}
+		w.dbs[m] = db
 		return m
 	}
 	client.StrictMode = false // zero value of a fresh process
 	w.vdrs = map[string]*vdr.Module{}
+	w.dbs = map[*vdr.Module]*gorm.DB{}
 	w.vdrs["before-strict"] = mk()
 	client.StrictMode = in.Strict // http.Engine.configureClient
 	w.vdrs["after-strict"] = mk()
@@ -369,6 +394,7 @@ func (w *world) resolve(res *result, id did.DID, md *resolver.ResolveMetadata) (
 	if doc != nil {
 		res.Resolved = true
 		res.DocID = doc.ID.String()
+		res.DocVMs = len(doc.VerificationMethod)
 	}
 	if dm != nil {
 		res.MetaDeac = dm.Deactivated
@@ -401,14 +427,60 @@ func (w *world) runManaged(c tcase) result {
 	id := docs[0].ID
 	res.DID = id.String()
 	res.Parsed = true
-	if c.Local == "deactivated" {
-		if err := w.vdr.Deactivate(w.ctx, subject); err != nil {
-			res.Error = "deactivate: " + err.Error()
+	// the history, written by the real manager: version 0 = creation, then updates (each adds a service), then - for a deactivated
+	// DID - the deactivation as the LAST operation
+	hist := c.Hist
+	if len(hist) == 0 {
+		hist = []int{0}
+		if c.Local == "deactivated" {
+			hist = []int{0, 1}
+		}
+	}
+	for v := 1; v < len(hist); v++ {
+		if v == len(hist)-1 && c.Local == "deactivated" {
+			if err := w.vdr.Deactivate(w.ctx, subject); err != nil {
+				res.Error = "deactivate: " + err.Error()
+				return res
+			}
+			continue
+		}
+		svc := did.Service{Type: fmt.Sprintf("verif-v%d", v), ServiceEndpoint: fmt.Sprintf("https://example.com/v%d", v)}
+		if _, err := w.vdr.CreateService(w.ctx, subject, svc); err != nil {
+			res.Error = "update: " + err.Error()
 			return res
 		}
 	}
+	// The wall clock: the manager stamps every version with time.Now() (no seam), so the clock readings of the history are written
+	// into the updated_at column afterwards - one minute per rank, all in the recent past; "ahead" = two hours in the future.
+	if len(c.Hist) > 0 {
+		db := w.dbs[w.vdr]
+		var n int64
+		if err := db.Table("did_document_version").Where("did = ?", id.String()).Count(&n).Error; err != nil || int(n) != len(hist) {
+			res.Error = fmt.Sprintf("history of %d versions expected, table has %d (%v)", len(hist), n, err)
+			return res
+		}
+		base := time.Now().Add(-time.Hour).Unix()
+		for v, rank := range hist {
+			ts := base + int64(rank)*60
+			if c.Ahead == "all" || (c.Ahead == "last" && v == len(hist)-1) {
+				ts = time.Now().Add(2*time.Hour).Unix() + int64(rank)*60
+			}
+			tx := db.Table("did_document_version").Where("did = ? AND version = ?", id.String(), v).Update("updated_at", ts)
+			if tx.Error != nil || tx.RowsAffected != 1 {
+				res.Error = fmt.Sprintf("set clock reading of version %d: %v (%d rows)", v, tx.Error, tx.RowsAffected)
+				return res
+			}
+		}
+	}
 	w.rec.reset(c.Server, res.DID) // creation itself must not be counted (and must not have needed the network either)
-	w.resolve(&res, id, meta(c.Meta))
+	doc := w.resolve(&res, id, meta(c.Meta))
+	if doc != nil {
+		ver := len(doc.Service)
+		if len(doc.VerificationMethod) == 0 {
+			ver = -1
+		}
+		res.DocVer = &ver
+	}
 	res.Dials, res.Requests = w.rec.snapshot()
 	return res
 }
